@@ -105,7 +105,11 @@ def run_unit(unit, acc):
     else:
         for style in ("t4", "nusc"):
             for s0, s100, minp in [(1.0, 1.0, 1), (1.0, 1.5, 3)]:
-                check_case(dict(layer="manager", style=style, s0=s0, s100=s100, minp=minp), acc)
+                for tu in (None, ["i1"], ["i0", "i2"], ["nobody"]):
+                    for where in ("config", "frame"):
+                        if tu is None and where == "frame":
+                            continue
+                        check_case(dict(layer="manager", style=style, s0=s0, s100=s100, minp=minp, target_uuids=tu, where=where), acc)
 
 
 def _rows(a):
@@ -189,7 +193,8 @@ def _edge_dist(p, poly):
     return d
 
 
-def _check_frame_result(case, fr, gts, boxes, zc, s0, s100, minp, PC, polys, zr, acc, bad):
+def _check_frame_result(case, fr, gts, boxes, zc, s0, s100, minp, PC, polys, zr, acc, bad, extra_boxes=()):
+    """extra_boxes: annotated objects of the frame that are not evaluated (uuid filter); their boxes still clear non-detection points."""
     allr = fr.detection_success_results + fr.detection_fail_results + fr.detection_warning_results
     if sorted(id(r.ground_truth_object) for r in allr) != sorted(id(g) for g in gts):
         bad("classified-not-once", "every ground truth must be reported exactly once as success / fail / warning: got %d results for %d objects" % (len(allr), len(gts)))
@@ -216,6 +221,10 @@ def _check_frame_result(case, fr, gts, boxes, zc, s0, s100, minp, PC, polys, zr,
         outcome.append(got)
         if want != got:
             bad("classification", "object %s (visibility %s, %d points inside, threshold %d) reported as %s, expected %s" % (g.uuid, g.visibility, cnt, minp, got, want))
+    for b in extra_boxes:
+        sc = s0 + 0.01 * (s100 - s0) * math.sqrt(b[0] ** 2 + b[1] ** 2 + zc ** 2)
+        inside, margin = _box_mask(PC, b, sc, zc)
+        any_box |= inside
     k = 0
     zin = (PC[:, 2] >= zr[0]) & (PC[:, 2] <= zr[1])
     for poly in polys:
@@ -350,7 +359,8 @@ def check_case(case, acc):
             acc.sample(case)
     else:
         root, d = _sensing_manager(case["style"])
-        cfgd = {"evaluation_task": "sensing", "target_uuids": None, "box_scale_0m": case["s0"], "box_scale_100m": case["s100"], "min_points_threshold": case["minp"]}
+        tu, where = case.get("target_uuids"), case.get("where", "config")
+        cfgd = {"evaluation_task": "sensing", "target_uuids": tu if where == "config" else None, "box_scale_0m": case["s0"], "box_scale_100m": case["s100"], "min_points_threshold": case["minp"]}
         with contextlib.redirect_stderr(io.StringIO()), contextlib.redirect_stdout(io.StringIO()):
             ec = SensingEvaluationConfig([root], "base_link", os.path.join(d, "res"), cfgd)
             m = SensingEvaluationManager(ec)
@@ -359,9 +369,17 @@ def check_case(case, acc):
         zr = (-1.0, 2.0)
         areas = [[(x, y, zr[0]) for x, y in poly] + [(x, y, zr[1]) for x, y in poly] for poly in POLYS]
         acc.exec()
-        fr = m.add_frame_result(fg.unix_time, fg, PC, areas)
+        if tu is not None and where == "frame":
+            fr = m.add_frame_result(fg.unix_time, fg, PC, areas, SensingFrameConfig(target_uuids=list(tu), box_scale_0m=case["s0"], box_scale_100m=case["s100"],
+                                                                                    min_points_threshold=case["minp"]))
+        else:
+            fr = m.add_frame_result(fg.unix_time, fg, PC, areas)
         acc.compared()
-        gts = list(fg.objects)
+        everything = list(fg.objects)
+        if len(everything) != len(FRAME_BOXES):
+            bad("manager:frame-modified", "the caller's ground-truth frame holds %d objects after add_frame_result, %d were loaded" % (len(everything), len(FRAME_BOXES)))
+        gts = [g for g in everything if tu is None or g.uuid in tu]
+        extra = [FRAME_BOXES[int(g.uuid[1:])] for g in everything if not (tu is None or g.uuid in tu)]
         order = [int(g.uuid[1:]) for g in gts]
         boxes = [FRAME_BOXES[i] for i in order]
         vis = [g.visibility for g in gts]
@@ -370,7 +388,7 @@ def check_case(case, acc):
             v = getattr(g.visibility, "value", g.visibility)
             if v != want_vis[i] or not hasattr(g.visibility, "value"):
                 bad("manager:visibility", "loaded object %s carries visibility %r, annotation level is %s" % (g.uuid, g.visibility, want_vis[i]))
-        out = _check_frame_result(case, fr, gts, boxes, 0.7, case["s0"], case["s100"], case["minp"], PC, POLYS, zr, acc, bad)
-        if "warn" not in out:
+        out = _check_frame_result(case, fr, gts, boxes, 0.7, case["s0"], case["s100"], case["minp"], PC, POLYS, zr, acc, bad, extra_boxes=extra)
+        if "warn" not in out and (tu is None or "i0" in tu):
             bad("manager:no-warning", "the fully occluded annotation (visibility none / v0-40) is not reported as warning")
-        acc.state(("manager", case["style"], case["s0"], case["s100"], case["minp"], tuple(out)), nontrivial=True)
+        acc.state(("manager", case["style"], case["s0"], case["s100"], case["minp"], tuple(tu or ()), where, tuple(out)), nontrivial=True)
